@@ -133,6 +133,18 @@ func c16Core() []c16Val {
 	}
 }
 
+// c16Tiny: a handful of operands of different kinds, for the longest lists with formats.
+func c16Tiny() []c16Val {
+	return []c16Val{
+		{c16q("a"), "a"},
+		{"7", 7},
+		{"nil", nil},
+		{`Safe("s\xe2")`, Safe("s\xe2")},
+		{`RedactableString("‹u›\xe2")`, RedactableString("‹u›\xe2")},
+		{`c16SF{5,"s","u"}`, c16SF{mode: 5, safe: "s", unsafe: "u"}},
+	}
+}
+
 // c16Full: the broad value universe.
 func c16Full() []c16Val {
 	vals := c16Core()
@@ -663,6 +675,7 @@ func TestVerifReplayC16(t *testing.T) {
 	h.printLists(full, 2, 2, ctxs[:7], []int{0})
 	h.printLists(c16Core(), 3, 3, ctxs[:4], []int{0})
 	h.printfLists(c16CoreFormats(), c16Core(), 2, 2, ctxs[:4], []int{0})
+	h.printfLists(c16CoreFormats(), c16Tiny(), 3, 3, ctxs[:4], []int{0})
 	t.Logf("C16 replay: %d S/F cases, %d builder/nested cases", h.sfCases, h.mrgCases)
 }
 
@@ -700,11 +713,11 @@ func TestVerifBoundedC16(t *testing.T) {
 		hp.deadline = start.Add(110 * time.Second)
 		hp.printLists(full, 0, 2, ctxs, c16AllWriters)
 		hp.printLists(core, 3, 3, ctxs, c16AllWriters)
-		hp.printLists(full, 3, 3, ctxs[:7], []int{0})
-		pb = fmt.Sprintf("all argument lists of length 0..2 over %d operand values in %d surrounding contexts and 4 writers; all lists of length 3 over %d core values in all contexts and writers and over all %d values in 7 contexts (1 writer); 3 builder/nested routes each",
+		hp.printLists(full, 3, 3, ctxs[:5], []int{0})
+		pb = fmt.Sprintf("all argument lists of length 0..2 over %d operand values in %d surrounding contexts and 4 writers; all lists of length 3 over %d core values in all contexts and writers and over all %d values in 5 contexts (1 writer); 3 builder/nested routes each",
 			len(full), len(ctxs), len(core), len(full))
 	} else {
-		hp.deadline = start.Add(8 * time.Second)
+		hp.deadline = start.Add(6 * time.Second)
 		hp.printLists(full, 0, 2, ctxs, c16AllWriters)
 		hp.printLists(core, 3, 3, ctxs[:7], []int{0})
 		pb = fmt.Sprintf("all argument lists of length 0..2 over %d operand values in %d surrounding contexts and 4 writers; length 3 over %d core values in 7 contexts (1 writer); 3 builder/nested routes each",
@@ -728,12 +741,13 @@ func TestVerifBoundedC16(t *testing.T) {
 		fb = fmt.Sprintf("%d formats x all argument lists of length 0..1 over %d operand values in %d contexts and 4 writers; x length 2 in 7 contexts (1 writer); %d core formats x lists of length 3 over %d core values in 4 contexts",
 			len(ff), len(full), len(ctxs), len(cf), len(core))
 	} else {
-		hf.deadline = start2.Add(7 * time.Second)
+		hf.deadline = start2.Add(6 * time.Second)
 		hf.printfLists(ff, full, 0, 1, ctxs, c16AllWriters)
 		hf.printfLists(cf, core, 2, 2, ctxs[:7], []int{0})
-		hf.printfLists(cf, full, 2, 2, ctxs[:2], []int{0})
-		fb = fmt.Sprintf("%d formats x all argument lists of length 0..1 over %d operand values in %d contexts and 4 writers; %d core formats x lists of length 2 over %d core values in 7 contexts and over all values in 2 contexts (1 writer)",
-			len(ff), len(full), len(ctxs), len(cf), len(core))
+		hf.printfLists(cf, full, 2, 2, ctxs[:1], []int{0})
+		hf.printfLists(cf, c16Tiny(), 3, 3, ctxs[:7], []int{0})
+		fb = fmt.Sprintf("%d formats x all argument lists of length 0..1 over %d operand values in %d contexts and 4 writers; %d core formats x lists of length 2 over %d core values in 7 contexts and over all values without context, x lists of length 3 over %d values in 7 contexts (1 writer)",
+			len(ff), len(full), len(ctxs), len(cf), len(core), len(c16Tiny()))
 	}
 	t.Logf("C16 printf style: %v (%d lazily-escaped safe junctions left out on the SafeFormat route)", time.Since(start2), hf.lazySkipped)
 	c16Bounded(hf,
